@@ -4,19 +4,19 @@ C19 — template providers: layered definitions, isolated views, cache-transpare
 Model: `Goat/Model/Templates.lean` (`run V k src cached reqs` = the answers of a fresh provider of
 kind `k` (html/text) to the request sequence `reqs` over the template files `src`; an answer is
 the set of definitions of the returned template, `none` = error).  `V : Variant` selects the code
-as it is (`V0`) or with one or both planned repairs; the theorems hold for every variant under
-the hypotheses that carve out the two recorded defect classes:
+as it is (`Vfix`, both repairs in: /repo commits 0187fed and 7d60dbb) or one of its earlier,
+defective revisions (`V0` = both defects).  The theorems are stated for every variant under the
+hypotheses that carve out the two defect classes, and those hypotheses are void for the code as
+it is (`admissible_current`):
 
-  `ReqOK V k r`  : not (html provider without the clone repair, and the caller executes an object
-                    obtained from `Base()`/`Layout()`)                          — KF-C19-1 (defect 22b)
+  `ReqOK V k r`  : not (html provider handing out its cached objects, and the caller executes an
+                    object obtained from `Base()`/`Layout()`)                  — former KF-C19-1 (22b)
   `KeyOK V r`    : the layout name of a view request contains no ':' unless the view cache is
-                    keyed by the pair                                            — key collision
+                    keyed by the pair                                            — former KF-C19-2
   `Admissible V k reqs` = every request satisfies both.
 
-Full-strength statement (FALSE for the code as it is, see `cache_transparent_false_html` and
-`cache_transparent_false_colon`; TRUE for the repaired variant, see `cache_transparent_fixed`):
-
-    theorem cache_transparent : ∀ k src reqs, run V0 k src true reqs = run V0 k src false reqs
+Full-strength statement: `cache_transparent` (for the code as it is, no hypotheses).  For the
+old revisions it is false: `cache_transparent_false_html`, `cache_transparent_false_colon`.
 
 Rendering is not modelled: what a template renders to is a function of its definitions (Go's
 template semantics, the oracle of the correspondence run).
@@ -27,10 +27,19 @@ import Goat.Proofs.TemplatesConc
 namespace Goat.C19
 open Goat Goat.Tmpl
 
-/-- the providers as they are in /repo -/
+/-- the providers before the two repairs (pinned tree + lock fix) -/
 def V0 : Variant := { cloneOut := false, pairKey := false }
-/-- both repairs applied -/
+/-- the providers as they are in /repo -/
 def Vfix : Variant := { cloneOut := true, pairKey := true }
+
+/-- For the code as it is every request sequence is admissible: the layering, isolation and
+ask-twice theorems below hold for it without any restriction on names or on what callers execute. -/
+theorem admissible_current (k : Kind) (reqs : List Req) : Admissible Vfix k reqs := by
+  intro r _
+  cases r <;> simp [ReqOK, KeyOK, KeyP, Vfix]
+
+example : Admissible Vfix Kind.html [Req.layout [112, 58, 113] true, Req.base true, Req.view [112] [113, 58, 114] true] :=
+  admissible_current _ _
 
 /-- the layered template of (layout `l`, view `v`): the view's definitions over the layout's over the helpers' -/
 def layered (src : Src) (l v : Name) : Option TSet :=
@@ -131,9 +140,9 @@ theorem ask_twice_equal (V : Variant) (k : Kind) (src : Src) (cached : Bool) (re
 example : sameTarget (Req.view [] [98] true) (Req.view defaultLayout [98] false) := by
   simp [sameTarget, normL]
 
-/-- **Cache transparency**, proved for every variant, both providers, all file sets and all
-admissible request sequences.  For the code as it is (`V0`): html sequences that execute only view
-templates, layout names without ':'; for the text provider only the ':' restriction. -/
+/-- Cache transparency for every variant, both providers, all file sets and all admissible
+request sequences.  For the old revision `V0`: html sequences that execute only view templates,
+layout names without ':'; for its text provider only the ':' restriction. -/
 theorem cache_transparent_partial (V : Variant) (k : Kind) (src : Src) (reqs : List Req)
     (h : Admissible V k reqs) : run V k src true reqs = run V k src false reqs := by
   rw [answers_are_spec V k src true _ h, uncached_is_spec]
@@ -148,12 +157,11 @@ example : Admissible V0 Kind.text [Req.layout [108] true, Req.base true, Req.vie
   simp at hr
   rcases hr with rfl | rfl | rfl <;> simp [ReqOK, KeyOK, KeyP, normL, colon]
 
-/-- With both repairs the full statement holds: no hypothesis on the requests. -/
-theorem cache_transparent_fixed (k : Kind) (src : Src) (reqs : List Req) :
-    run Vfix k src true reqs = run Vfix k src false reqs := by
-  apply cache_transparent_partial
-  intro r _
-  cases r <;> simp [ReqOK, KeyOK, KeyP, Vfix]
+/-- **Cache transparency, full strength**, for the providers as they are: all file sets, all
+request sequences (any names, any executions by the callers), both providers. -/
+theorem cache_transparent (k : Kind) (src : Src) (reqs : List Req) :
+    run Vfix k src true reqs = run Vfix k src false reqs :=
+  cache_transparent_partial Vfix k src reqs (admissible_current k reqs)
 
 /-- the witness of KF-C19-1: a layout directory with one template file -/
 def kfSrc : Src :=
@@ -164,7 +172,7 @@ def kfSrc : Src :=
 /-- `Layout("a")`, the caller executes it, then `View("a", "c")` -/
 def kfReqs : List Req := [Req.layout [97] true, Req.view [97] [99] false]
 
-/-- **KF-C19-1 (defect 22b)**: the html provider as it is is not cache transparent, even for names
+/-- **Former KF-C19-1 (defect 22b, repaired by 0187fed)**: the old html provider is not cache transparent, even for names
 without ':' — after a caller executed the cached layout, `View` fails (`cannot Clone … after it has
 executed`) where the uncached provider succeeds. -/
 theorem cache_transparent_false_html :
@@ -189,7 +197,7 @@ def colonSrc : Src :=
 /-- `View("p:q", "r")` then `View("p", "q:r")`: both join to the key `p:q:r` -/
 def colonReqs : List Req := [Req.view [112, 58, 113] [114] false, Req.view [112] [113, 58, 114] false]
 
-/-- **Key collision**: with a ':' in a layout name neither provider is cache transparent even if
+/-- **Former KF-C19-2 (repaired by 7d60dbb)**: with a ':' in a layout name neither old provider is cache transparent even if
 nothing is ever executed (the second request is answered with the first one's template). -/
 theorem cache_transparent_false_colon (k : Kind) :
     ¬ (∀ (src : Src) (reqs : List Req), (∀ r ∈ reqs, ReqOK V0 k r) →
